@@ -1377,6 +1377,79 @@ def _stream(E, inner):
     return None
 
 
+def _stream_len(E, st, inner):
+    """'I' length value of the byte slice behind a stream object (or None)"""
+    s = _stream(E, inner)
+    if s is None or s[2] is None:
+        return None
+    v = s[2]
+    for _ in range(6):
+        pt = None
+        if v[0] == 'T' and v[1] is not None:
+            pt = E.types.pointee(E.types.get(v[1]))
+        v = E.expand(v)
+        if v[0] == 'R':
+            if v[1] is None:
+                return None
+            if pt is not None:
+                E.pointee_init(st, v[1], pt)
+            v = E.read_lv(st, (v[1], v[2]), pt)
+        elif v[0] == 'O' and v[1] == 'cursor':
+            v = v[2][0]
+        elif v[0] == 'S':
+            ln = st.resolve(v[1])
+            return ln if ln != BOT and ln[0] == 'I' else None
+        else:
+            return None
+    return None
+
+
+def _stream_item_term(E, st, inner, idx):
+    """term of byte idx of the buffer behind a stream, if the buffer is known element-wise"""
+    s = _stream(E, inner)
+    if s is None or s[2] is None:
+        return None
+    v = s[2]
+    for _ in range(6):
+        pt = None
+        if v[0] == 'T' and v[1] is not None:
+            pt = E.types.pointee(E.types.get(v[1]))
+        v = E.expand(v)
+        if v[0] == 'R':
+            if v[1] is None:
+                return None
+            v = E.read_lv(st, (v[1], v[2]), pt)
+        elif v[0] == 'O' and v[1] == 'cursor':
+            v = v[2][0]
+        elif v[0] == 'S':
+            if v[3] is not None and idx < len(v[3]) and v[3][idx][0] == 'I':
+                t = v[3][idx][4]
+                if t is not None and t[0] != 'c':
+                    return t
+            return None
+        else:
+            return None
+    return None
+
+
+def _ok_needs_len(E, st, inner_before, pos, n):
+    """a successful read of n bits at pos implies len(source) >= ceil((pos+n)/8); refines st (the
+    Ok state).  Returns (ok feasible, short-read error feasible)."""
+    if pos is None:
+        return True, True
+    ln = _stream_len(E, st, inner_before)
+    if ln is None:
+        return True, True
+    need = (pos[1] + n[1] + 7) // 8
+    need_hi = (pos[2] + n[2] + 7) // 8
+    err = ln[1] < need_hi
+    if ln[2] < need:
+        return False, True
+    if ln[4] is not None and ln[1] < need:
+        return E.refine_term(st, ln[4], need, ln[2]), err
+    return True, err
+
+
 def _advance(E, st, frame, b, lv, rd, n):
     """reader consumed n (an 'I') bits: returns (stream id, start position 'I' or None)"""
     inner, leftover, last, bits_read = rd[1]
@@ -1462,13 +1535,24 @@ def deku_prim(E, st, frame, b, t, c, args):
         val = mk_int(0, (1 << nb) - 1)
     if sid is not None and pos is not None and pos[1] == pos[2] and n[1] == n[2]:
         term = T('bits', sid, pos[1], n[1], rs)
+        # the top n bits of a byte whose own term is known (the stream's source is a buffer with
+        # element-wise content): the value is that byte shifted, so that it correlates with direct
+        # uses of the byte (`remaining_bytes[0] >> 3`)
+        if rd is not None and not signed and rs != 'bool' and pos[1] % 8 == 0 and 0 < n[1] <= 8:
+            bt = _stream_item_term(E, st, rd[1][0], pos[1] // 8)
+            if bt is not None:
+                term = bt if n[1] == 8 else T('Shr', bt, T('c', 8 - n[1]))
     else:
         term = T('o', site)
     val = E.reg((val[0], val[1], val[2], val[3], term))
-    parts = [(1, (('T', erty, None),))]
-    if n[1] <= width:
-        parts.insert(0, (0, (val,)))
-    return ('E', T('e', site), tuple(parts))
+    out = []
+    s_err = st.copy()
+    okf, errf = (True, True) if rd is None else _ok_needs_len(E, st, rd[1][0], pos, n)
+    if n[1] <= width and okf:
+        out.append((st, ('E', None, ((0, (val,)),))))
+    if errf or n[2] > width:
+        out.append((s_err, ('E', None, ((1, (('T', erty, None),)),))))
+    return out
 
 
 @model(['new'], rself='deku::prelude::Reader', pred=lambda c: c.get('rcrate') == 'deku')
@@ -1493,18 +1577,23 @@ def deku_read_bits(E, st, frame, b, t, c, args):
     if rd is not None:
         sid, pos = _advance(E, st, frame, b, lv, rd, n)
     E.layout_event(frame, b, t, c, sid, pos, n, c['item'])
-    parts = []
-    if c['item'] == 'skip_bits':
-        parts.append((0, (('A', ()),)))
-    else:
-        inner = []
-        if n[1] == 0:
-            inner.append((0, ()))
-        if n[2] > 0:
-            inner.append((1, (('O', 'bitvec', (mk_int(max(n[1], 1), n[2]), sid, pos)),)))
-        parts.append((0, (('E', T('e', (site, 'opt')), tuple(inner)),)))
-    parts.append((1, (('T', erty, None),)))
-    return ('E', T('e', site), tuple(parts))
+    s_err = st.copy()
+    out = []
+    okf, errf = (True, True) if rd is None else _ok_needs_len(E, st, rd[1][0], pos, n)
+    if okf:
+        if c['item'] == 'skip_bits':
+            okv = ('A', ())
+        else:
+            inner = []
+            if n[1] == 0:
+                inner.append((0, ()))
+            if n[2] > 0:
+                inner.append((1, (('O', 'bitvec', (mk_int(max(n[1], 1), n[2]), sid, pos)),)))
+            okv = ('E', T('e', (site, 'opt')), tuple(inner))
+        out.append((st, ('E', None, ((0, (okv,)),))))
+    if errf:
+        out.append((s_err, ('E', None, ((1, (('T', erty, None),)),))))
+    return out
 
 
 @model(['into_vec'], pred=lambda c: 'BitVec' in (c.get('rself') or '') or 'BitVec' in (c.get('rname') or ''))
